@@ -90,7 +90,7 @@ def nodupNat : List Nat → Bool
 def docDNSSL (maxI : Dur) (d : RawDNSSL) : Bool :=
   match resolve d.lifetime (3 * maxI) with
   | none => false
-  | some l => inNonneg l && !d.names.isEmpty && nodupNat d.names
+  | some l => inNonneg l && !d.names.isEmpty && !d.names.contains 0 && nodupNat d.names   -- name id 0 = the empty string
 
 def nat64Len (b : Nat) : Bool := b == 96 || b == 64 || b == 56 || b == 48 || b == 40 || b == 32
 
